@@ -53,6 +53,7 @@ CHECKS = {
                         "a local Close is not by itself a terminal event for pending calls (graceful close waits for their replies, see C08)"],
         "runs": [
             {"pkg": "core", "run": "^TestC02Completion$", "quick": 1500, "thorough": 60000, "shards_thorough": 8},
+            {"pkg": "core", "run": "^TestC02SendWindow$", "quick": 600, "thorough": 30000, "shards_thorough": 4},
             {"pkg": "core", "run": "^TestC02CutSweep$", "quick": 1, "thorough": 1, "rapid": False},
         ],
     },
@@ -68,6 +69,7 @@ CHECKS = {
         "assumptions": ["status text domain per protocol: any bytes for raw/json/pb/ws, valid UTF-8 for http (JSON status document); an empty cause equals no cause over http",
                         "handler statuses travel to the handler inside the request body, so their text is restricted to what the request codec can carry (XML-valid / valid UTF-8)"],
         "runs": [
+            {"pkg": "thriftw", "run": "^TestC04ThriftStatus$", "quick": 800, "thorough": 40000, "shards_thorough": 4},
             {"pkg": "core", "run": "^TestC04Status$", "quick": 1500, "thorough": 60000, "shards_thorough": 8},
             {"pkg": "core", "run": "^TestC04KnownProbes$", "quick": 1, "thorough": 1, "rapid": False},
         ],
